@@ -201,6 +201,29 @@ func runC19(r *kit.Run) {
 				viol("Import/not-equal", "Import(Export(h)) is not Equal to h")
 				return
 			}
+			// the imported histogram is independent of the original: mutating
+			// it must not change what the original answers
+			before := []int64{h.TotalCount(), h.ValueAtQuantile(50), h.ValueAtQuantile(100), h.Min(), h.Max()}
+			snap := h.Export()
+			imp2 := hdrhist.Import(snap)
+			for k := 0; k < 3; k++ {
+				_ = imp2.RecordValue(shape.Min)
+				_ = imp2.RecordValue(shape.Max)
+			}
+			if rng.IntN(2) == 0 {
+				imp2.Reset()
+			}
+			after := []int64{h.TotalCount(), h.ValueAtQuantile(50), h.ValueAtQuantile(100), h.Min(), h.Max()}
+			for k := range before {
+				if before[k] != after[k] {
+					viol("Import/aliases-original", fmt.Sprintf("after mutating Import(Export(h)) the original answers changed: [TotalCount P50 P100 Min Max] %v -> %v", before, after))
+					return
+				}
+			}
+			if !hdrhist.Import(h.Export()).Equals(h) {
+				viol("Import/aliases-original", "after mutating an imported copy, a fresh Import(Export(h)) is no longer Equal to h")
+				return
+			}
 			// Merge into an empty histogram of the same shape
 			empty := hdrhist.New(shape.Min, shape.Max, shape.Sig)
 			if dropped := empty.Merge(h); dropped != 0 {
